@@ -29,7 +29,10 @@ NAMES = ["given", "notgiven"]
 # form of a path argument (a dimension of path sources / targets only): explicit format with a path whose suffix
 # matches / is missing / names another supported format / names no supported format, or no format at all (deduced
 # from the matching suffix)
-PATHFORMS = ["explicitMatching", "explicitNoSuffix", "explicitOtherSuffix", "explicitUnsupportedSuffix", "deduced"]
+PATHFORMS = ["explicitMatching", "explicitNoSuffix", "explicitOtherSuffix", "explicitUnsupportedSuffix", "deduced", "deducedLink"]
+# deducedLink: no format given, the path as given carries the matching suffix but is a symbolic link to a file whose own
+# name carries this suffix instead (the deduction is a function of the path as given):
+LINK_TARGET_SUFFIX = {"xyz": ".blob", "mol2": ".xyz", "cdxml": ".blob", "unsupported": ".xyz"}
 SUFFIX_OTHER = {"xyz": ".mol2", "mol2": ".xyz", "cdxml": ".xyz", "unsupported": ".xyz"}
 SUFFIX_UNSUPPORTED = ".dat"
 
@@ -63,7 +66,7 @@ def all_cells():
 
 def cell_index(c) -> int:
     e, f, k, o, n, pf = c
-    return ((((ENTRIES.index(e) * 4 + FMTS.index(f)) * 3 + KINDS.index(k)) * 3 + OTYPES.index(o)) * 2 + NAMES.index(n)) * 5 \
+    return ((((ENTRIES.index(e) * 4 + FMTS.index(f)) * 3 + KINDS.index(k)) * 3 + OTYPES.index(o)) * 2 + NAMES.index(n)) * 6 \
         + PATHFORMS.index(pf)
 
 
@@ -93,9 +96,51 @@ def path_form(cell, fmt_str):
     """(suffix of the path, format argument) for the cell's path form; `fmt_str` is the explicit format string"""
     f, pf = cell[1], cell[5]
     own = ("." + fmt_str) if fmt_str else ""
-    suffix = {"explicitMatching": own, "deduced": own, "explicitNoSuffix": "", "explicitOtherSuffix": SUFFIX_OTHER[f],
-              "explicitUnsupportedSuffix": SUFFIX_UNSUPPORTED}[pf]
-    return suffix, (None if pf == "deduced" else fmt_str)
+    suffix = {"explicitMatching": own, "deduced": own, "deducedLink": own, "explicitNoSuffix": "",
+              "explicitOtherSuffix": SUFFIX_OTHER[f], "explicitUnsupportedSuffix": SUFFIX_UNSUPPORTED}[pf]
+    return suffix, (None if pf in ("deduced", "deducedLink") else fmt_str)
+
+
+def make_link(link: Path, target: Path):
+    """(re)create the symbolic link `link` -> `target` (relative target, as `ln -s` in a data directory would)"""
+    if link.is_symlink() or link.exists():
+        link.unlink()
+    link.symlink_to(os.path.relpath(target, link.parent))
+    return link
+
+
+def same_path(a, b) -> bool:
+    """the same path, or another spelling of a path to the same file (a harmless normalisation is not a finding)"""
+    try:
+        pa, pb = Path(str(a)), Path(str(b))
+        return pa == pb or (pa.exists() and pb.exists() and os.path.samefile(pa, pb))
+    except OSError:
+        return False
+
+
+class RecordingStream(io.StringIO):
+    """a caller-owned open text stream that records every call other than write(): an entry point must not do
+    anything to a caller's stream that the class-level dump does not (it only writes)"""
+
+    def __init__(self):
+        super().__init__()
+        self.other_calls = []
+
+    def flush(self):
+        self.other_calls.append("flush")
+        return super().flush()
+
+    def close(self):
+        self.other_calls.append("close")
+        return super().close()
+
+    def seek(self, *a):
+        self.other_calls.append("seek")
+        return super().seek(*a)
+
+    def truncate(self, *a):
+        self.other_calls.append("truncate")
+        return super().truncate(*a)
 
 
 # --------------------------------------------------------------------------------------
@@ -306,7 +351,13 @@ def call_entry(spy: Spy, cell, sample: Sample, fmt_str: str | None, *, path_as_s
     fn = getattr(ml, e)
     if e in ("load", "load_all"):
         src = sample.src_path(f, fmt_str)
-        if src.suffix != suffix:
+        if pf == "deducedLink":
+            store = sample.workdir / "store"
+            store.mkdir(exist_ok=True)
+            real = store / f"5f1c9a_{f}{LINK_TARGET_SUFFIX[f]}"
+            real.write_bytes(src.read_bytes())
+            src = make_link(sample.workdir / f"link_{f}{'_' + out_name if out_name != 'out' else ''}{suffix}", real)
+        elif src.suffix != suffix:
             # the same content under a path with the suffix the cell asks for
             cp = sample.workdir / f"src_{f}{'_' + out_name if out_name != 'out' else ''}{suffix}"
             cp.write_bytes(src.read_bytes())
@@ -320,13 +371,23 @@ def call_entry(spy: Spy, cell, sample: Sample, fmt_str: str | None, *, path_as_s
     elif e == "dump":
         obj = sample.objs[o]
         if k == "stream":
-            caller_stream = io.StringIO()
+            caller_stream = RecordingStream()
             caller_stream.write("PRE\n")
             before = "PRE\n"
             args = (obj, caller_stream, fmt_str)
         else:
             target_path = sample.workdir / f"{out_name}_{f}{suffix}"
-            if mode == "a-existing":
+            if pf == "deducedLink":
+                store = sample.workdir / "store"
+                store.mkdir(exist_ok=True)
+                real = store / f"{out_name}_{f}_target{LINK_TARGET_SUFFIX[f]}"
+                real.write_text("")
+                make_link(target_path, real)
+            elif target_path.is_symlink():
+                target_path.unlink()
+            if pf == "deducedLink":
+                pass
+            elif mode == "a-existing":
                 target_path.write_text("PRE\n")
                 before = "PRE\n"
             elif target_path.exists():
@@ -352,6 +413,7 @@ def call_entry(spy: Spy, cell, sample: Sample, fmt_str: str | None, *, path_as_s
     opened = list(spy.opened)
     written = None
     if caller_stream is not None:
+        caller_stream.other_calls = [c for c in caller_stream.other_calls]      # what the ENTRY POINT did to it
         written = caller_stream.getvalue() if not caller_stream.closed else None
     elif target_path is not None and target_path.exists():
         written = target_path.read_text()
@@ -383,17 +445,17 @@ def classify(cell, obs) -> dict:
     for c in calls:
         a0 = c["args"][0] if c["args"] else c["kwargs"].get("input", c["kwargs"].get("stream", c["kwargs"].get("output")))
         if c["meth"] in ("_parse_fragment", "__getitem__"):
-            ok = Path(str(getattr(c["self"], "path", ""))) == Path(str(obs["src"]))
+            ok = same_path(getattr(c["self"], "path", ""), obs["src"])
         elif e in ("load", "load_all"):
-            ok = (hasattr(a0, "read") and Path(str(getattr(a0, "name", ""))) == Path(str(obs["src"]))) or \
-                 (isinstance(a0, (str, Path)) and Path(str(a0)) == Path(str(obs["src"])))
+            ok = (hasattr(a0, "read") and same_path(getattr(a0, "name", ""), obs["src"])) or \
+                 (isinstance(a0, (str, Path)) and same_path(a0, obs["src"]))
         elif e in ("loads", "loads_all"):
             ok = isinstance(a0, str) and a0 == obs["src"]
         elif e == "dump":
             if k == "stream":
                 ok = a0 is obs["caller_stream"]
             else:
-                ok = hasattr(a0, "write") and Path(str(getattr(a0, "name", ""))) == Path(str(obs["target_path"]))
+                ok = hasattr(a0, "write") and same_path(getattr(a0, "name", ""), obs["target_path"])
             ok = ok and c["self"] is obs["args"][0]
         else:  # dumps
             ok = c["self"] is obs["args"][0]
@@ -421,7 +483,8 @@ def classify(cell, obs) -> dict:
                 wrote = "returned"
     stream_ok = all(fh.closed for fh in obs["opened"])
     if obs["caller_stream"] is not None:
-        stream_ok = stream_ok and not obs["caller_stream"].closed
+        # still open, and nothing was done to it but writing (the class-level dump only writes)
+        stream_ok = stream_ok and not obs["caller_stream"].closed and not getattr(obs["caller_stream"], "other_calls", [])
     return {"applicable": True, "reached": reached, "nameFwd": name_fwd, "argOk": arg_ok, "result": result,
             "named": named, "wrote": wrote, "streamOk": stream_ok}
 
